@@ -137,6 +137,14 @@ func newFrame(anc *frame, length int, id uint64) *frame {
 	return f
 }
 
+// newCallFrame returns a frame for a call of a function value bound to frame anc
+// (a closure or a function wrapper). The call belongs to the current evaluation,
+// not to the evaluation which created the function value: the run id is the one
+// of the root frame.
+func newCallFrame(anc *frame, length int) *frame {
+	return newFrame(anc, length, anc.root.runid())
+}
+
 func (f *frame) runid() uint64      { return atomic.LoadUint64(&f.id) }
 func (f *frame) setrunid(id uint64) { atomic.StoreUint64(&f.id, id) }
 func (f *frame) clone() *frame {
